@@ -148,9 +148,10 @@ FoldRest(f) == IF Len(f.vals) > 1 /\ f.ops # <<>>
 Finish(st, ts, how) ==
   LET f == Top(st) IN
   IF f.vals = <<>> THEN Done(st, "rej", WZero(W))
+  ELSE IF f.paren /\ how = "eol" THEN Done(st, "rej", WZero(W))        \* "Missing ')' in expression"
+  ELSE IF Len(f.ops) >= Len(f.vals) THEN Done(st, "rej", WZero(W))     \* "Expression ends with an operator"
   ELSE LET g  == FoldRest(f)
-           s0 == IF Len(f.ops) >= Len(f.vals) THEN AddDev(st, "TrailingOperatorAccepted") ELSE st
-           s1 == IF f.paren /\ how = "eol" THEN AddDev(s0, "UnclosedParenAccepted") ELSE s0
+           s1 == st
        IN IF g.count = -1 THEN Done(s1, "rej", WZero(W))
           ELSE IF g.count = -2 THEN Done(s1, "any", WZero(W))
           ELSE LET v == g.vals[Len(g.vals)] IN
@@ -172,10 +173,7 @@ MStep(st, ts) ==
      IF t.t = "num" THEN PushVal(adv, ApplyUn(f.un, t.v), ts)
      ELSE IF t.t = "lp" THEN [adv EXCEPT !.fr = Append(@, Frame0(TRUE))]
      ELSE IF IsOp(t, "-") \/ IsOp(t, "~") THEN SetTop(adv, [f EXCEPT !.un = Append(@, t.o)])
-     ELSE \* parse_unary_new() reports the token and fails, but run() ignores its result:
-          \* the cleared value gets the first unary operator applied and is pushed.
-          PushVal(AddDev(IF eol THEN st ELSE adv, "UnaryOperandErrorIgnored"),
-                  IF f.un[1] = "-" THEN WZero(W) ELSE WOnes(W), ts)
+     ELSE Done(st, "rej", WZero(W))        \* parse_unary_new() fails and run() propagates it
   ELSE IF eol THEN Finish(st, ts, "eol")
   ELSE IF t.t = "lp" THEN
      IF NeedSymbol(f.count) THEN Finish(st, ts, "pushback")          \* the x(r12) case
